@@ -47,6 +47,8 @@ func projectLines(text string) []fLine {
 			res = append(res, fLine{K: "blank", FS: []string{}})
 		case t == "}":
 			res = append(res, fLine{K: "close", Key: "}", FS: []string{}})
+		case reBlockOpen.MatchString(t) && !strings.Contains(t, "#aa:"):
+			res = append(res, fLine{K: "bopen", Key: reBlockOpen.FindStringSubmatch(t)[1], FS: []string{}})
 		default:
 			if m := reFilterMarker.FindStringSubmatchIndex(l); m != nil {
 				left := strings.TrimSpace(l[:m[0]])
@@ -84,6 +86,8 @@ func concretiseLinesInd(ls []fLine, odd bool) string {
 			b.WriteString("\n")
 		case "close":
 			b.WriteString("}\n")
+		case "bopen":
+			b.WriteString(ind + "profile " + l.Key + " {\n")
 		case "line":
 			b.WriteString(ind + "/usr/bin/" + l.Key + " r,\n")
 		case "inl":
@@ -94,6 +98,8 @@ func concretiseLinesInd(ls []fLine, odd bool) string {
 	}
 	return b.String()
 }
+
+var reBlockOpen = regexp.MustCompile(`^profile (\S+) \{$`)
 
 var runMu sync.Mutex
 
@@ -378,6 +384,8 @@ func compactLines(ls []fLine) string {
 			parts = append(parts, "_")
 		case "close":
 			parts = append(parts, "}")
+		case "bopen":
+			parts = append(parts, l.Key+"{")
 		case "line":
 			parts = append(parts, fmt.Sprintf("%s@%d", l.Key, l.Ind))
 		case "inl":
